@@ -373,6 +373,30 @@ func c17(c *Ctx) {
 		}
 		r.Check(ok, "R17.M", "request-reissued", c.pos(mk.Pos()), "when the error was handled (nil), makeRequest(data, …) is called again with the same request")
 	}
+	// "reconnects to the address configured for data centre X": the address the migrate arm has just set is the one
+	// Reconnect dials - nothing reachable from Reconnect (outside the key exchange) assigns MTProto.addr again
+	if rc := c.P.Func(load.RootMod, "*MTProto", "Reconnect"); rc != nil {
+		isKeyEx := func(f *ssa.Function) bool { return an.ShortName(f) == "(*mtproto.MTProto).makeAuthKey" }
+		var bad []string
+		nf := 0
+		for f := range c.Graph().Reachable([]*ssa.Function{rc}, func(f *ssa.Function) bool { return c.P.InRepo(f) && !isKeyEx(f) && !isRequestBarrier(f) }) {
+			if !c.P.InRepo(f) || isKeyEx(f) {
+				continue
+			}
+			nf++
+			for _, b := range f.Blocks {
+				for _, in := range b.Instrs {
+					if st, ok := in.(*ssa.Store); ok {
+						if fa, ok := st.Addr.(*ssa.FieldAddr); ok && an.FieldName(fa.X.Type(), fa.Field) == "mtproto.MTProto.addr" {
+							bad = append(bad, "MTProto.addr written in "+an.ShortName(f)+" at "+c.pos(st.Pos()))
+						}
+					}
+				}
+			}
+		}
+		sort.Strings(bad)
+		r.Check(len(bad) == 0 && nf > 3, "R17.M", "reconnect-dials-the-address-just-set", c.pos(rc.Pos()), sprintf("%d functions reachable from Reconnect outside makeAuthKey; %s", nf, strings.Join(bad, "; ")))
+	}
 	// "the one error handled instead of returned is PHONE_MIGRATE_X": inside the rpc_error arm of makeRequest the
 	// request is issued again only behind the nil edge of tryToProcessErr's result - no other code or text is retried
 	if mk := c.P.Func(load.RootMod, "*MTProto", "makeRequest"); mk != nil {
